@@ -14,6 +14,7 @@ DRIVER = 'harness/wrapper_drv.cpp'
 EXTRACT = 'Extract/WrapperExtract.v'
 ML = 'wrapper_model'
 SANITIZE = False
+ENUM = True
 
 GUARDED, GUARDED_OPT, SHARED, SHARED_OPT, ORDERED, ATOMIC = range(6)
 PLAIN, TIMED, SHMUTEX, SHTIMED = range(4)
